@@ -118,3 +118,11 @@ CHECKS += [
          note="Trusted: the fake servers' transaction sets are the ground truth; the aggressive-repair path (reset + re-point at the master) is not enabled in these runs.",
          technique="property-based testing with a reference resolver (model oracle), a metamorphic relation on the counting helpers, and an instant-of-effect invariant over generated transaction-set relations and simulated histories"),
 ]
+
+CHECKS += [
+    dict(property_id="C10", category="exploration",
+         text="The real daemons (manager elected through the fake ZooKeeper) run repeated iterations over fake MySQL servers whose initial state is drawn per host from the product the property lists (read-only flags, offline, semi-sync flags, replication source incl. another replica and an unregistered server, thread states, SQL errors that persist or get cured, hosts claiming to be master with or without own transactions), with semi-sync and aggressive repair on/off, attempt limits 1-3 and 0-4 failing statements (error, cut before/after execution, hang) aimed at the repair statements. Monitors judge every statement at the instant it arrives (none to the unregistered server, none pointing a server at itself or at it, RESET REPLICA ALL only when aggressive repair, attempt limit and cooldown allow), the master key after every iteration, and the end state after fault-free iterations with time jumps. A second unit visits every cell of a reduced grid (648 cells) exactly once. One defect found is recorded as a known finding.",
+         design_ref="DESIGN.md section 4, C10",
+         note="Trusted: the fake servers' variables and channels are the ground truth; failing reads on the master are not injected (the property presumes a healthy reachable master); hosts that ever had an SQL error are exempt from 'replication runs' (their repair budget may be spent) but not from 'points at the master'.",
+         technique="property-based testing of the real repair loop over fake servers: generated initial states and fault schedules, instant-of-statement invariants plus an end-state validity predicate; exhaustive enumeration of a reduced grid"),
+]
